@@ -493,7 +493,7 @@ class _Gen:
         for _ in range(2):
             self.body = []
             self.vars = list(outer_vars)
-            if inner_pool and rng.random() < 0.6:
+            if inner_pool and rng.random() < 0.15:
                 self.add_site(inner_pool[int(rng.integers(len(inner_pool)))])
             ret = ["+", self.lin(), ["*", self.lin(need_param=False), self.lin(need_param=False)]]
             branches.append({"body": self.body, "ret": ret})
@@ -641,6 +641,27 @@ def unit_program(prim, variant=0):
     else:
         g.add_site(prim)
     return g.spec()
+
+
+def unit_cond_site_program():
+    """a site inside a lax.cond branch, followed by code that is non-linear in the cond's result"""
+    P = lambda n: ["p", n]  # noqa: E731
+    return {
+        "params": [{"name": "t0", "n": 0}, {"name": "t1", "n": 0}],
+        "body": [
+            {"s": "site", "v": "b", "prim": "flip_enum", "args": [["prob", ["+", ["c", 0.2], ["*", ["c", 0.9], P("t0")]]]], "how": "direct"},
+            {"s": "cond", "v": "k", "pred": ["v", "b"],
+             "t": {"body": [{"s": "site", "v": "c", "prim": "flip_enum",
+                             "args": [["prob", ["+", ["c", -0.3], ["*", ["c", 0.8], P("t1")]]]], "how": "direct"}],
+                   "ret": ["+", ["*", ["c", 1.3], ["f", ["v", "c"]]], ["*", ["c", 0.7], P("t0")]]},
+             "f": {"body": [], "ret": ["+", ["c", 0.4], ["*", ["c", -0.6], P("t1")]]}},
+        ],
+        "ret": ["*", ["cos", ["*", ["c", 1.5], ["v", "k"]]], ["+", ["c", 0.5], P("t1")]],
+    }
+
+
+def has_site_in_cond(spec):
+    return any(st["s"] == "cond" and (sites(st["t"]["body"]) or sites(st["f"]["body"])) for st in spec["body"])
 
 
 def gen_point(rng, spec):
